@@ -17,6 +17,16 @@ CHECKS = {
          "Trusted: pyprops/exprmodel.py (precedence climbing, 60 lines) as the meaning of the statement; arithmetic >> and "
          "truncating division are taken as the two's-complement reading; shift counts outside 0..63 and decimal "
          "literals >= 2^63 are excluded as unspecified.", "DESIGN.md 3/C04"),
+ "C05": ("hypothesis+nvserve",
+         "Hypothesis directive sequences vs independent location-counter/emit interpreter (model-based differential)",
+         "Generated-input search: Hypothesis builds sequences of the listed data/location directives (boundary values, "
+         "strings with escapes, backward/overlapping .org, 64 KiB page crossings, addresses up to 0xfffffe00, endian "
+         "switches, .binfile) for CPUs with 1/2/4/8 bytes per address and both byte orders; the sanitized assembler's "
+         "image (address->byte, exact key set) and symbol table must equal those of an independent interpreter of the "
+         "same abstract sequence; .db/.dw operands outside their documented range must be rejected with a diagnostic.",
+         "Trusted: the Model class in pyprops/c05.py as the reading of docs/directives.md and the statement. Labels/$ are "
+         "only placed on address-unit boundaries; 64-bit items do not reference 32-bit symbols; three genuine defects are "
+         "listed as open findings and their input classes are excluded/attributed by predicate.", "DESIGN.md 3/C05"),
 }
 
 NOT_YET = "check not built yet (work in progress; see DESIGN.md section 3)"
